@@ -229,6 +229,7 @@ func SolveAll(g *Gen, header string, results []*FnResult, outDir string, par int
 	return out
 }
 
+
 // retryTimeouts gives obligations on which every solver ran out of time a second chance: solver time depends on
 // the load of the machine, and a timeout must not be reported as a failed obligation just because sixteen
 // solver processes (or other jobs) were competing for the cores. At most 40 of them are re-run, four at a time,
